@@ -165,11 +165,8 @@ def run_container(ctx, case, data, tmp, container, spelling, max_read, rng):
 
 
 def round_cands(x, rate):
-    q = Fraction(x) * rate
-    c = {round(x * rate)}
-    if abs((q - math.floor(q)) - Fraction(1, 2)) <= Fraction(1, 10 ** 9):
-        c |= {math.floor(q), math.floor(q) + 1}
-    return c
+    """round(t*rate) as the statement spells it: Python's round() of the product (ties to even)."""
+    return {round(x * rate)}
 
 
 def run_audio(ctx, case, tmp, rng, thorough):
@@ -189,6 +186,7 @@ def run_audio(ctx, case, tmp, rng, thorough):
         mrs.append(rng.randint(0, total) / rate)
         mrs.append((total + rng.randint(1, 3 * case["block"])) / rate)
         mrs.append((rng.randint(0, total) + 0.3) / rate)
+        mrs.append((rng.randint(0, total) + 0.5) / rate)  # an exact tie when the rate is a power of two: round() goes to even
     if not thorough:
         mrs = [None, rng.choice(mrs[1:])] if len(mrs) > 1 else mrs
     for max_read in mrs:
